@@ -122,6 +122,69 @@ Section Rw.
     pose proof (preservation en Hen _ _ _ _ _ T E) as P.
     destruct Tk as [->|[->| ->]]; destruct v; try discriminate; reflexivity.
   Qed.
+  (* stringsCompare: the five forms *)
+  Definition compare_code (c : comparison) : Z := match c with Eq => 0 | Lt => -1 | Gt => 1 end.
+  Lemma strings_compare_gen o k kz o' s1 s2 :
+    is_cmp o = true -> is_cmp o' = true ->
+    (forall h, evalS en k h = Some (RVal (VInt kz), h)) ->
+    (forall c, cmp_ord o (compare_code c ?= kz)%Z = cmp_ord o' c) ->
+    typeof s1 = Some TString -> typeof s2 = Some TString ->
+    preserves en (rw_compare o k o' s1 s2).
+  Proof.
+    intros Co Co' Hk F T1 T2 h. simpl rw_rhs; simpl rw_lhs.
+    rewrite (eval_cmp_generic en o' _ _ h Co'), (eval_cmp_generic en o _ _ h Co), eval_prim2.
+    destruct (evalS en s1 h) as [[[v1|] h1]|] eqn:E1; simpl; auto.
+    pose proof (preservation en Hen _ _ _ _ _ T1 E1) as P1. destruct v1; try discriminate.
+    destruct (evalS en s2 h1) as [[[v2|] h2]|] eqn:E2; simpl; auto.
+    pose proof (preservation en Hen _ _ _ _ _ T2 E2) as P2. destruct v2; try discriminate.
+    simpl. rewrite (Hk h2). simpl. unfold str_compare. fold (compare_code (String.compare s s0)). rewrite F. reflexivity.
+  Qed.
+
+  Theorem strings_compare_preserves s1 s2 : typeof s1 = Some TString -> typeof s2 = Some TString ->
+    preserves en (rw_compare OEq lit0 OEq s1 s2) /\ preserves en (rw_compare OEq litm1 OLt s1 s2) /\
+    preserves en (rw_compare OLt lit0 OLt s1 s2) /\ preserves en (rw_compare OEq lit1 OGt s1 s2) /\
+    preserves en (rw_compare OGt lit0 OGt s1 s2).
+  Proof.
+    intros T1 T2. repeat split.
+    - apply (strings_compare_gen OEq lit0 0 OEq); auto. intros [| |]; reflexivity.
+    - apply (strings_compare_gen OEq litm1 (-1) OLt); auto. intros [| |]; reflexivity.
+    - apply (strings_compare_gen OLt lit0 0 OLt); auto. intros [| |]; reflexivity.
+    - apply (strings_compare_gen OEq lit1 1 OGt); auto. intros [| |]; reflexivity.
+    - apply (strings_compare_gen OGt lit0 0 OGt); auto. intros [| |]; reflexivity.
+  Qed.
+
+  (* yodaStyleExpr: == and != are symmetric (NaN included) and a literal has no effects *)
+  Lemma cmp_ord_opp o c : (o = OEq \/ o = ONe) -> cmp_ord o (CompOpp c) = cmp_ord o c.
+  Proof. intros [-> | ->]; destruct c; reflexivity. Qed.
+
+  Lemma fl_compare_sym x y : fl_compare y x = option_map CompOpp (fl_compare x y).
+  Proof.
+    destruct x as [|[]|p], y as [|[]|q]; simpl; try reflexivity.
+    rewrite <- QArith_base.Qcompare_antisym. reflexivity.
+  Qed.
+
+  Lemma cmp_val_sym o a b : (o = OEq \/ o = ONe) -> cmp_val o a b = cmp_val o b a.
+  Proof.
+    intros O. destruct a, b; simpl; try reflexivity.
+    - rewrite (Z.compare_antisym z z0). rewrite cmp_ord_opp; auto.
+    - unfold fl_cmp. rewrite (fl_compare_sym f f0). destruct (fl_compare f f0); simpl; [rewrite cmp_ord_opp; auto|].
+      destruct O as [-> | ->]; reflexivity.
+    - rewrite (String.compare_antisym s s0). rewrite cmp_ord_opp; auto.
+    - destruct O as [-> | ->]; destruct b0, b; reflexivity.
+  Qed.
+
+  Theorem yoda_preserves o k s t x : (o = OEq \/ o = ONe) -> typeof (ELit k s t) <> None ->
+    preserves en (rw_yoda o (ELit k s t) x).
+  Proof.
+    intros O T h. simpl rw_rhs; simpl rw_lhs.
+    assert (Co : is_cmp o = true) by (destruct O as [-> | ->]; reflexivity).
+    rewrite !(eval_cmp_generic en o _ _ h Co).
+    simpl in T. unfold lit_type_ok in T. destruct (lit_value k s t) as [vc|] eqn:L; [|congruence].
+    assert (Hc : forall h', evalS en (ELit k s t) h' = Some (RVal vc, h')) by (intros h'; simpl; rewrite L; reflexivity).
+    rewrite (Hc h). simpl.
+    destruct (evalS en x h) as [[[vx|] h1]|]; simpl; auto.
+    rewrite ?L. simpl. rewrite (cmp_val_sym o vc vx O). reflexivity.
+  Qed.
 End Rw.
 
 (* ---- refutations ---- *)
